@@ -28,6 +28,12 @@ for f in ('bellatrix', 'capella', 'deneb'):
     EXTRA['eth2/beacon/%s:BeaconStateView.ProcessBlock' % f] = ['//@   assigns ghost(n_eng_notify), ghost(n_set_exec_header)']
 for k in ('eth2/beacon/common:StateTransition', 'eth2/beacon/common:PostSlotTransition'):
     EXTRA[k] = ['//@   assigns ghost(n_eng_notify), ghost(n_set_exec_header)']
+PROPS = {'eth2/beacon:StandardUpgradeableBeaconState.UpgradeMaybe': ' C14'}
+EXTRA['eth2/beacon:StandardUpgradeableBeaconState.UpgradeMaybe'] = [
+    '//@   requires s != nil && spec != nil',
+    '//@   assigns s.BeaconState',
+    '//@   ensures upgraded: err == nil ==> (exists sl :: 0 <= sl && sl < 18446744073709551616 && st_fork(s.BeaconState) == up_chain(old(st_fork(s.BeaconState)), sl, fork_slot(old(spec.ALTAIR_FORK_EPOCH), old(spec.SLOTS_PER_EPOCH)), fork_slot(old(spec.BELLATRIX_FORK_EPOCH), old(spec.SLOTS_PER_EPOCH)), fork_slot(old(spec.CAPELLA_FORK_EPOCH), old(spec.SLOTS_PER_EPOCH)), fork_slot(old(spec.DENEB_FORK_EPOCH), old(spec.SLOTS_PER_EPOCH)), fork_slot(old(spec.ELECTRA_FORK_EPOCH), old(spec.SLOTS_PER_EPOCH))))',
+    '//@   ensures known: old(st_fork(s.BeaconState)) >= 0 && err == nil ==> st_fork(s.BeaconState) >= old(st_fork(s.BeaconState))']
 EXTRA['eth2/beacon/common:ProcessSlots'] = ['//@   loop 1', '//@     invariant ctx_t == old(ctx_t) ==> currentSlot < slot']
 EXTRA['eth2/beacon/deneb:VerifyAndNotifyNewPayload'] = [l.replace('old(newPayloadRequest.ExecutionPayload)', 'old(*newPayloadRequest.ExecutionPayload)') for l in _sfx(_vnp(True), 'deneb')]
 EXTRA['eth2/beacon/deneb:ProcessExecutionPayload'] = [
@@ -89,7 +95,7 @@ for root, _, files in os.walk(os.path.join(REPO, 'eth2/beacon')):
             key = (rtype + '.' if rtype else '') + name
             full = pkg + ':' + key
             head = '//@ func ' + (('(%s %s%s) ' % (rname, star, rtype)) if rtype else '') + name + '(' + ', '.join(pnames) + ') ' + res
-            b = [head, '//@   property C18', '//@   panics off', '//@   requires %s != nil' % ctx,
+            b = [head, '//@   property C18' + PROPS.get(full, ''), '//@   panics off', '//@   requires %s != nil' % ctx,
                  '//@   opt weakcalls', '//@   opt inline=closures', '//@   assigns anything, ghost(ctx_t), ghost(ctx_seen)']
             if full not in NO_CANCELLED:
                 b.append('//@   ensures cancelled: ctx_cancelled(%s, old(ctx_t)) ==> err != nil' % ctx)
